@@ -65,7 +65,7 @@ def modelOut (c : Case) : Json :=
       (s', acc.2 ++ [evsJson (s'.events.drop acc.1.events.length)])) (s0, [])
   let recon := ids.map (fun i => match sN.mgr.find? i with | some r => (C19.rcN r.reconcile : Json) | none => ((-1 : Int) : Json))
   Json.mkObj ([("start", evsJson s0.events), ("ops", Json.arr per.toArray), ("recon", Json.arr recon.toArray),
-              ("ended", sN.cancelled), ("late", Json.arr #[])] ++
+              ("ended", sN.cancelled), ("late", Json.arr #[]), ("interleaved", Json.arr #[])] ++
     (match c.crd with
      | none => []
      | some flags => [("resets", ((resets (fun i => flags.getD i false) sN : Nat) : Json))]))
@@ -110,6 +110,11 @@ def waitSpec (c : Case) (o : Json) : Except String (Bool × String) := do
   let recon ← (← asList (← jget o "recon")).mapM (fun j => j.getInt?)
   let ended ← jbool o "ended"
   if !late.isEmpty then return (false, "events after the phase ended")
+  -- the deadline's Timeout events are recorded AND sent under the task's lock: no event of a status update can come between
+  -- two of them (else that object's last event is Timeout while something else is recorded for it)
+  match jopt o "interleaved" with
+  | some (Json.arr a) => if !a.isEmpty then return (false, "a status update got through while the deadline's Timeout events were being sent")
+  | _ => pure ()
   let ids := List.range c.n
   -- start: exactly one event per object, in order; Skipped iff actuation failed/skipped; Successful only if condition met
   if startEvs.map (·.1) != ids.map (fun (i : Nat) => (Int.ofNat i)) then return (false, "start: not exactly one event per object")
